@@ -120,9 +120,12 @@ def Obl.discharged (o : Obl) (outs : List Output) : Bool :=
     | .sent _ b ok => ok && (if o.strict then b.tag == o.b.tag else b.key == o.b.key)
     | _ => false)
 
-/-- Is the obligation's bundle in the store (and which item)? -/
+/-- Is the obligation's bundle in the store (and which item)? A submitted bundle is looked for under
+its source and creation time (the node chooses the sequence number) and must be this very bundle. -/
 def Obl.item (o : Obl) (v : View) : Option ItemView :=
-  if o.strict then v.items.find? (fun i => i.bundle.tag == o.b.tag) else v.get o.b.key
+  if o.strict then
+    v.items.find? (fun i => i.key.src == o.b.src && i.key.ts == o.b.ts && i.bundle.tag == o.b.tag)
+  else v.get o.b.key
 
 /-- The new obligation an event creates: a bundle accepted for forwarding whose lifetime has not ended
 and which is not refused for cause. -/
